@@ -285,11 +285,11 @@ func c20CodecEnumerate(sh *evidence.Shard) {
 	p := sh.Part("codec", "enum")
 	types := []byte{0x01, 0x02, 0x00, 0x03}
 	p.Alphabet = map[string]any{
-		"type":             "0x01 hello, 0x02 ack, 0x00, 0x03 (invalid: encoder must refuse; reference-built packet must be rejected)",
-		"padding_length":   "every value 0..1024 (the whole range randomPaddingLength can draw)",
+		"type":              "0x01 hello, 0x02 ack, 0x00, 0x03 (invalid: encoder must refuse; reference-built packet must be rejected)",
+		"padding_length":    "every value 0..1024 (the whole range randomPaddingLength can draw)",
 		"encoding_metadata": "M0; M1 = M0 with nonce byte 15 bit 0 flipped; M2 = M0 with key byte 31 bit 7 flipped; every packet decoded under all three",
-		"salt":             "real-encode direction: 8 SHA-derived bytes per case; reference-encode direction: all 0x00 (even pad) / all 0xff (odd pad)",
-		"mutations":        "each of the 264 single-bit flips of wire bytes 0..32; all 8 bits of the first and of the last padding byte; drop last/first byte; append 0x00/0xff; prepend one byte - each under all three metadata sets",
+		"salt":              "real-encode direction: 8 SHA-derived bytes per case; reference-encode direction: all 0x00 (even pad) / all 0xff (odd pad)",
+		"mutations":         "each of the 264 single-bit flips of wire bytes 0..32; all 8 bits of the first and of the last padding byte; drop last/first byte; append 0x00/0xff; prepend one byte - each under all three metadata sets",
 	}
 	p.Bounds = map[string]any{"cases": len(types) * 1025 * 3}
 	var item int64
